@@ -750,6 +750,8 @@ func (sw *SlidingWindow) sendResult(data []types.Row) {
 		// Try to drop oldest data
 		select {
 		case <-sw.outputChan:
+			// the displaced result is lost: it counts as dropped
+			atomic.AddInt64(&sw.droppedCount, 1)
 			select {
 			case sw.outputChan <- data:
 				atomic.AddInt64(&sw.sentCount, 1)
